@@ -393,7 +393,7 @@ def run(ctx):
             res.samples.append({"text": text})
     # whole front end: `parse_text_protosubroutine` vs the model `AsmFront.parseTextProto`
     front_texts = []
-    for _ in range(3 * n_text // 4):
+    for _ in range(n_text // 2):
         p = H.gen_std_program(rng, max_len=8) if rng.random() < 0.7 else H.gen_wild_program(rng, max_len=6)
         wild = rng.random() < 0.35
         if not wild:
